@@ -31,7 +31,8 @@ var Check = &ev.Check{
 		_, err := cells.Prepare(s, cells.Options{Slim: s.Tier != "thorough"})
 		return err
 	},
-	Run: run,
+	Run:        run,
+	MemLimitKB: 8 << 20,
 	Budget: func(t string) time.Duration {
 		return map[string]time.Duration{"quick": 4 * time.Minute, "thorough": 25 * time.Minute}[t]
 	},
@@ -102,7 +103,11 @@ func run(w *ev.W) {
 			input(env, cell, ent, f, t, b)
 		}
 		serializers(env, cell, ent, f, d, t)
-		for vi, v := range env.P.Deviations(f, d, k) {
+		kk := k
+		if len(d.Fields) > 10 {
+			kk = 1
+		}
+		for vi, v := range env.P.Deviations(f, d, kk) {
 			held := v
 			if !env.P.Valid(f, t, v) {
 				continue
